@@ -81,6 +81,7 @@ class Trace:
     ops: list[str] = field(default_factory=list)
     lines: list[str] = field(default_factory=list)           # lines[0] = after start; lines[k] = after ops[k-1]
     op_msg: list[str | None] = field(default_factory=list)   # message code delivered by ops[k] (None for injections)
+    op_inner: list[list[str]] = field(default_factory=list)  # nested ops: codes delivered by the second worker meanwhile
     audit_len: list[int] = field(default_factory=list)       # len(audit) after each line
     ledger_len: list[int] = field(default_factory=list)
     audit: list[tuple[str, str, str]] = field(default_factory=list)
@@ -108,7 +109,7 @@ class Trace:
 
     def to_json(self) -> dict:
         return {"spec": self.spec.to_json(), "spec_line": self.spec.line(), "ops": self.ops, "tag": self.tag,
-                "last_line": self.lines[-1] if self.lines else ""}
+                "last_line": self.lines[-1] if self.lines else "", "meta": self.meta}
 
 
 def parse_line(line: str) -> dict:
@@ -171,6 +172,7 @@ class Runner:
         e, t = self.e, self.t
         kind = op[0]
         msg = None
+        inner_codes: list[str] = []
         if kind in ("d", "x", "k"):
             code = {i: c for i, c, _ in e.pending()}.get(op[1])
             msg = code
@@ -203,12 +205,34 @@ class Runner:
             e.sweep()
             t.ops.append("w")
             t.outcomes.append("ok")
+        elif kind == "n":
+            # deliver RunTask row op[1]; while its task executes, a second worker fully delivers rows op[2]
+            codes = {i: c for i, c, _ in e.pending()}
+            code = codes.get(op[1])
+            msg = code
+            inner = list(op[2])
+            inner_codes = [codes.get(j, "?") for j in inner]
+            fired = []
+
+            def hook(s_, t_, n_):  # runs in the bulkhead thread, inside Task.execute
+                e.world.hook = None
+                for j in inner:
+                    fired.append(e.deliver(j))
+
+            e.world.hook = hook
+            try:
+                r = e.deliver(op[1])
+            finally:
+                e.world.hook = None
+            t.ops.append("n" + ".".join(str(x) for x in [op[1]] + inner))
+            t.outcomes.append(r)
         elif kind == "restart":
             e.restart()
             return
         else:
             raise AssertionError(op)
         t.op_msg.append(msg)
+        t.op_inner.append(inner_codes)
         self._record(msg)
 
     def drain(self, rng: random.Random | None, mode: str = "fifo", max_steps: int = 250, redeliver_p: float = 0.0) -> None:
@@ -246,6 +270,14 @@ def can_transition(old: str, new: str) -> bool:
     return ct(WorkflowStatus[old], WorkflowStatus[new])
 
 
+def op_codes(t: Trace, k: int) -> list[str]:
+    """message codes handled by ops[k]: the delivered one plus those a second worker delivered meanwhile (nested op)"""
+    out = [t.op_msg[k]] if t.op_msg[k] else []
+    if k < len(t.op_inner):
+        out += t.op_inner[k]
+    return out
+
+
 def audit_by_op(t: Trace):
     """yield (op index (0-based; -1 = start), op string, delivered msg code, audit row)"""
     for k in range(1, len(t.lines)):
@@ -257,7 +289,7 @@ def mon_c06(t: Trace) -> list[tuple[str, str]]:
     """every durable status change legal; completed final except jump re-arm"""
     hits = []
     for k, op, msg, (ent, old, new) in audit_by_op(t):
-        rearm = new == "NOT_STARTED" and msg is not None and msg.startswith("JS.")
+        rearm = new == "NOT_STARTED" and any(c.startswith("JS.") for c in op_codes(t, k))
         if rearm:
             continue
         if not can_transition(old, new):
@@ -283,10 +315,18 @@ def join_ok(spec: Spec, pre: dict, i: int) -> bool:
 
 def mon_c03(t: Trace) -> list[tuple[str, str]]:
     hits = []
+    cur_k, cur = None, None
     for k, op, msg, (ent, old, new) in audit_by_op(t):
+        if k != cur_k:
+            cur_k, cur = k, parse_line(t.lines[k])
+        pre = cur
+        if ent[0] == "S" and ent[1:].isdigit():
+            # statuses as they were when THIS row was written: a nested op (second worker delivering messages while the
+            # first one's task executes) and multi-write handlers change upstream rows earlier within the same op
+            cur = dict(cur, stages=[dict(x) for x in cur["stages"]])
+            cur["stages"][int(ent[1:])]["status"] = new
         if ent[0] == "S" and old == "NOT_STARTED" and new == "RUNNING":
             i = int(ent[1:])
-            pre = parse_line(t.lines[k])
             if pre["stages"][i]["jb"]:
                 continue  # explicit jump target
             if not join_ok(t.spec, pre, i):
@@ -329,6 +369,25 @@ def mon_c02_reexec(t: Trace, crashes: int = 0) -> list[tuple[str, str]]:
     return hits
 
 
+def mon_c02_outcome(t: Trace) -> list[tuple[str, str]]:
+    """same outcome as in-order exactly-once delivery: final workflow / stage statuses and per-task execution counts of a
+    reordered / redelivered run equal the FIFO run's, for workflows whose outcome does not depend on a failing branch
+    racing its siblings (no halting task result)"""
+    ref = t.meta.get("fifo_ref")
+    if not ref or not ref.get("healthy") or not t.quiesced:
+        return []
+    got = outcome_of(t)
+    hits = []
+    if got["wf"] != ref["wf"] or got["stages"] != ref["stages"]:
+        fin = t.final()
+        cause = wedge_cause(t, fin) if fin["wf"] not in COMPLETE else (("wait-budget:" + wedge_cause(t, parse_line(t.lines[exhausted(t)]))) if exhausted(t) is not None else "final-statuses")
+        hits.append((f"outcome-differs-from-fifo:{cause}", f"schedule {t.tag}: final {got['wf']} {got['stages']} vs in-order run {ref['wf']} {ref['stages']}"))
+    elif got["execs"] != ref["execs"]:
+        jumped = any(c.startswith("JS.") for k in range(len(t.ops)) for c in op_codes(t, k))
+        hits.append(("executions-differ-from-fifo" + (":jump" if jumped else ""), f"schedule {t.tag}: task executions {got['execs']} vs in-order run {ref['execs']}"))
+    return hits
+
+
 def waiting_explicitly(fin: dict) -> bool:
     return any(s["status"] in ("SUSPENDED", "PAUSED") for s in fin["stages"])
 
@@ -345,32 +404,39 @@ def exhausted(t: Trace) -> int | None:
 def wedge_cause(t: Trace, fin: dict) -> str:
     """Name the cause of a quiescent-but-unfinished workflow (stable signature per defect, not per shape)."""
     has_d = any("D" in script for st in t.spec.stages for script in st.tasks)
+    seen_js: set[str] = set()
+    for k in range(len(t.ops)):
+        m = t.op_msg[k]
+        if m and m.startswith("JS.") and t.ops[k][0] in "dx" and t.ops[k][1:] not in seen_js:
+            seen_js.add(t.ops[k][1:])
+            src = int(m.split(".")[1])
+            pre = parse_line(t.lines[k])
+            if pre["stages"][src]["status"] == "RUNNING" and t.audit_len[k + 1] == t.audit_len[k]:
+                return "jump-request-ignored-although-source-running"
+    jumped = any(c.startswith("JS.") for k in range(len(t.ops)) for c in op_codes(t, k))
+    in_order = t.tag.endswith("/fifo") or all(o[0] == "d" for o in t.ops) and t.ops == sorted(t.ops, key=lambda o: int(o[1:]))
     for s in fin["stages"]:
-        if s["status"] == "RUNNING" and "REDIRECT" in s["tasks"]:
-            # task REDIRECT and nobody drives the stage: either the task returned REDIRECT without a target,
-            # or a stale CompleteTask(REDIRECT) of the previous loop iteration hit the re-armed task (F4)
-            return "redirect-result-without-jump" if has_d else "stale-completetask-redirect-after-rearm"
+        if s["status"] == "RUNNING" and "REDIRECT" in s["tasks"] and has_d:
+            return "redirect-result-without-jump"        # task returned REDIRECT with no target: nobody drives the stage
+    rearmed = {int(ent[1:]) for ent, old, new in t.audit if ent[0] == "S" and new == "NOT_STARTED"}
     fwd_src = set()
-    for k, m in enumerate(t.op_msg):
-        if m and m.startswith("JS."):
-            a, b = int(m.split(".")[1]), int(m.split(".")[2])
-            fwd_src.add(a)
+    for k in range(len(t.ops)):
+        for m in op_codes(t, k):
+            if m.startswith("JS."):
+                fwd_src.add(int(m.split(".")[1]))
     for i, s in enumerate(fin["stages"]):
         reqs = t.spec.stages[i].reqs
         ups = [fin["stages"][u]["status"] for u in reqs]
-        if s["status"] == "NOT_STARTED" and reqs and all(u in CONTINUABLE for u in ups) and any(u in fwd_src for u in reqs):
-            rearm = any(ent == f"S{i}" and new == "NOT_STARTED" for ent, old, new in t.audit)
-            if not rearm:
-                return "downstream-of-jump-source-never-triggered"   # jump completed its source without start_next
-    rearmed = {int(ent[1:]) for ent, old, new in t.audit if ent[0] == "S" and new == "NOT_STARTED"}
-    jumped = any(m and m.startswith("JS.") for m in t.op_msg)
+        if s["status"] == "NOT_STARTED" and reqs and all(u in CONTINUABLE for u in ups) and any(u in fwd_src for u in reqs) and i not in rearmed:
+            return "downstream-of-jump-source-never-triggered"   # F29: jump completed its source without start_next
     for i, s in enumerate(fin["stages"]):
         ups = [fin["stages"][u]["status"] for u in t.spec.stages[i].reqs]
-        if s["status"] == "NOT_STARTED" and i in rearmed and all(u in COMPLETE for u in ups):
-            return "rearmed-stage-not-retriggered"       # jump re-armed it, but its upstreams were not re-run
-    for i, s in enumerate(fin["stages"]):
-        if s["status"] == "RUNNING" and s["tasks"] and jumped and all(x in ("NOT_STARTED",) or x in COMPLETE for x in s["tasks"]):
-            return "stale-message-after-jump"
+        if s["status"] == "NOT_STARTED" and i in rearmed and all(u in COMPLETE for u in ups) and in_order:
+            return "rearmed-stage-not-retriggered"       # F28: jump re-armed it, but its upstreams were not re-run
+    if jumped and not in_order:
+        # F4 family: a message of an earlier loop iteration (CompleteTask(REDIRECT), StartTask, RunTask, StartStage,
+        # CompleteStage) overtaken by the re-arm acts on the new iteration; messages carry no iteration tag
+        return "jump-loop-stale-message"
     shape = "+".join(sorted({s["status"] for s in fin["stages"]}))
     return ("jump:" if jumped else "") + shape
 
@@ -471,6 +537,28 @@ def outcome_of(t: Trace) -> dict:
             "healthy": t.quiesced and fin["wf"] in COMPLETE and exhausted(t) is None}
 
 
+def sweep_triggered_jump_downstream(t: Trace) -> bool:
+    """F29 made visible: a recovery sweep pushed StartStage for a NOT_STARTED stage one of whose prerequisites had been
+    completed by a forward jump (the jump marks its source SUCCEEDED without start_next, so in the uninterrupted run that
+    stage waits for another upstream to trigger it, or for ever); the crash run then legitimately differs from the
+    uninterrupted one by that stage starting earlier / at all."""
+    fwd_src: set[int] = set()
+    for k, o in enumerate(t.ops):
+        for m in op_codes(t, k):
+            if m.startswith("JS."):
+                fwd_src.add(int(m.split(".")[1]))
+        if o == "w" and fwd_src:
+            before = {x.split(":")[1].split("/")[0] for x in parse_line(t.lines[k])["queue"]}
+            after = parse_line(t.lines[k + 1])
+            for x in after["queue"]:
+                code = x.split(":")[1].split("/")[0]
+                if code.startswith("SS.") and code not in before:
+                    i = int(code.split(".")[1])
+                    if after["stages"][i]["status"] == "NOT_STARTED" and any(u in fwd_src for u in t.spec.stages[i].reqs):
+                        return True
+    return False
+
+
 def mon_c01(t: Trace) -> list[tuple[str, str]]:
     """crash anywhere + restart + sweep + drain == uninterrupted run (statuses, data each task saw, at most the in-flight step repeated)"""
     ref = t.meta.get("ref")
@@ -480,6 +568,8 @@ def mon_c01(t: Trace) -> list[tuple[str, str]]:
     got = outcome_of(t)
     at = t.meta.get("crash_msg", "?").split(".")[0]
     k = t.meta.get("crash_k")
+    if sweep_triggered_jump_downstream(t):
+        at, k = "downstream-of-jump-source-never-triggered", "uninterrupted"
     if not got["quiesced"]:
         hits.append((f"not-drained-after-recovery:{at}", "queue not drained after crash recovery"))
         return hits
@@ -489,7 +579,16 @@ def mon_c01(t: Trace) -> list[tuple[str, str]]:
         return hits
     if got["wf"] != ref["wf"] or got["stages"] != ref["stages"]:
         hits.append((f"outcome-differs:{at}@{k}", f"crash in {t.meta.get('crash_msg')} after {k} commits: final {got['wf']} {got['stages']} vs uninterrupted {ref['wf']} {ref['stages']}"))
+    # first-come joins (OR / DISCRIMINATOR / N_OF_M / MULTI_MERGE) hand their stage whatever upstream outputs exist at the
+    # moment the join fires: the data such a stage (and everything downstream of it) sees depends on the delivery order even
+    # without a crash, and a recovery sweep legitimately changes that order - only AND-joined data is schedule-independent
+    first_come: set[int] = set()
+    for i, st in enumerate(t.spec.stages):
+        if (st.join != "AND" and len(st.reqs) > 1) or any(u in first_come for u in st.reqs):
+            first_come.add(i)
     for key, seen in ref["seen"].items():
+        if int(key.split(".")[0]) in first_come:
+            continue
         if key in got["seen"] and got["seen"][key] != seen:
             hits.append((f"upstream-data-differs:{at}@{k}", f"task {key} saw {got['seen'][key]} after the crash in {t.meta.get('crash_msg')}, {seen} in the uninterrupted run"))
             break
@@ -508,6 +607,11 @@ def mon_c10(t: Trace) -> list[tuple[str, str]]:
     got = outcome_of(t)
     kind = t.meta.get("kind", "healthy")
     where = (t.meta.get("sweep_before") or "?").split(".")[0]
+    healthy_ref = t.meta.get("ref_healthy")
+    if healthy_ref and healthy_ref.get("healthy"):
+        extra = sum(got["execs"].values()) - sum(healthy_ref["execs"].values())
+        if extra > 1:
+            hits.append((f"after-crash:more-than-inflight-step-repeated:{where}", f"{extra} extra task executions after one crash in {t.meta.get('crash_msg')} followed by sweep(s)"))
     if got["quiesced"] != ref["quiesced"] or got["wf"] != ref["wf"] or got["stages"] != ref["stages"]:
         hits.append((f"{kind}:outcome-changed-by-sweep:before-{where}", f"{kind}: sweep before {t.meta.get('sweep_before')}: final {got['wf']} {got['stages']} vs reference {ref['wf']} {ref['stages']}"))
     if got["execs"] != ref["execs"]:
@@ -525,7 +629,7 @@ def mon_c18(t: Trace) -> list[tuple[str, str]]:
     for k, op, msg, (ent, old, new) in audit_by_op(t):
         if ent == f"S{tgt}" and old == "SUSPENDED":
             cause = (msg or op).split(".")[0]
-            if cause not in ("SG", "XS"):
+            if cause not in ("SG", "XS") and not any(c.split(".")[0] in ("SG", "XS", "JS") for c in op_codes(t, k)):
                 hits.append((f"suspended-left-by:{cause}", f"stage {tgt} left SUSPENDED ({new}) by {msg or op}, not by a signal or cancel"))
     if not t.quiesced:
         return hits
@@ -565,10 +669,10 @@ def mon_c18(t: Trace) -> list[tuple[str, str]]:
 
 
 # monitors about final outcomes only make sense on budget-respecting schedules (see Runner.eligible)
-OUTCOME_MONITORS = {"mon_c17", "mon_c05", "mon_c01", "mon_c10", "mon_c18"}
+OUTCOME_MONITORS = {"mon_c17", "mon_c05", "mon_c01", "mon_c10", "mon_c18", "mon_c02_outcome"}
 
 MONITORS = {
-    "C02": [mon_c02_reexec],
+    "C02": [mon_c02_reexec, mon_c02_outcome],
     "C03": [mon_c03],
     "C05": [mon_c05],
     "C06": [mon_c06],
@@ -576,6 +680,7 @@ MONITORS = {
     "C01": [mon_c01, mon_c06, mon_c05],
     "C10": [mon_c10, mon_c06],
     "C18": [mon_c18, mon_c06],
+    "C15": [],   # filled below (mon_c15 is defined after the producers)
 }
 
 
@@ -602,6 +707,8 @@ def _one_random(args) -> dict:
                     out.extend(produce_c10(rng, wd, tier))
                 elif prop == "C18":
                     out.extend(produce_c18(rng, wd, tier))
+                elif prop == "C15" and j % 6 == 0:
+                    out.extend(produce_c15(rng, wd, tier))
                 else:
                     out.append(produce(prop, rng, wd, j))
             except Exception:
@@ -618,9 +725,23 @@ def produce(prop: str, rng: random.Random, wd: Path, j: int) -> dict:
     if prop in ("C03",) and rng.random() < 0.3:
         fam = "w3"
     spec = gen_spec(rng, fam)
+    directed = prop in ("C06", "C18", "C05", "C02") and rng.random() < (0.3 if prop in ("C06", "C18") else 0.12)
+    if directed:
+        # interference family: a stage whose task suspends / polls, next to a parallel stage that jumps INTO it
+        # (re-arm while the task executes) or is cancelled meanwhile: exercises RunTask's reload-then-commit phase
+        a_script = rng.choice([["U", "S"], ["R", "S"], ["U", "U", "S"], ["S"]])
+        b_script = [f"J0"] * rng.randint(1, 2) + ["S"]
+        stages = [StageSpec(tasks=[a_script]), StageSpec(tasks=[b_script])]
+        if rng.random() < 0.5:
+            stages.append(StageSpec(reqs=[0, 1], tasks=[["S"]]))
+        spec = Spec(stages, wf_maxj=rng.choice([None, 2, 3]))
+        fam = "interf"
     r = Runner(spec, wd)
     mode = rng.choice(["fifo", "rand", "rand", "dup", "any"])
+    if directed:
+        mode = rng.choice(["rand", "dup"])
     respecting = mode != "any"
+    nested_p = 0.0 if mode == "fifo" else (0.6 if directed else 0.25)
     cancel_at = rng.randint(0, 25) if (prop == "C17" or rng.random() < 0.15) else None
     step = 0
     for _ in range(220):
@@ -631,8 +752,13 @@ def produce(prop: str, rng: random.Random, wd: Path, j: int) -> dict:
             r.apply(("c",))
             cancel_at = None
             continue
-        rid = p[0][0] if mode == "fifo" else rng.choice(p)[0]
-        if mode == "dup" and rng.random() < 0.2:
+        rid, rcode = (p[0][0], p[0][1]) if mode == "fifo" else (lambda x: (x[0], x[1]))(rng.choice(p))
+        others = [x for x in p if x[0] != rid and not (x[1].startswith("RT.") and x[1] == rcode)]
+        if rcode.startswith("RT.") and others and rng.random() < nested_p:
+            # a second worker handles other pending messages WHILE this task executes (RunTask's two phases)
+            inner = [x[0] for x in rng.sample(others, min(len(others), rng.choice([1, 1, 2])))]
+            r.apply(("n", rid, inner))
+        elif mode == "dup" and rng.random() < 0.2:
             r.apply(("x", rid))
         else:
             r.apply(("d", rid))
@@ -642,6 +768,11 @@ def produce(prop: str, rng: random.Random, wd: Path, j: int) -> dict:
     t = r.finish()
     t.tag = f"{fam}/{mode}"
     t.respecting = respecting
+    injected = any(o[0] in "cg" for o in t.ops)
+    halting = any(o[0] in "TXPCD" for st in spec.stages for script in st.tasks for o in script)
+    if prop == "C02" and respecting and mode != "fifo" and not injected and not halting and not is_exotic(spec):
+        ref = fifo_run(spec, wd).finish()
+        t.meta["fifo_ref"] = outcome_of(ref)
     return pack(t)
 
 
@@ -659,6 +790,35 @@ def fifo_run(spec: Spec, wd: Path, inject: dict[int, list[tuple]] | None = None,
         r.apply(("d", p[0][0]))
         step += 1
     return r
+
+
+def hold_then_expire(r: "Runner", hold: int) -> None:
+    """`hold` further in-order deliveries of rows that are NOT locked by a dead worker, then the locks lapse"""
+    for _ in range(hold):
+        locked = r.e.locked_ids()
+        p = [x for x in r.eligible(True) if x[0] not in locked]
+        if not p:
+            break
+        r.apply(("d", p[0][0]))
+    r.e.expire_locks()
+
+
+_C01_CLASS_SEEN: dict[tuple[str, int], int] = {}
+
+
+def _stratified_points(points: list, rng: random.Random, n: int = 6) -> list:
+    by_class: dict[tuple[str, int], list] = {}
+    for pt in points:
+        by_class.setdefault((pt[2].split(".")[0], pt[3]), []).append(pt)
+    rare = ["JS", "SK", "XS", "XW", "SG", "CW", "SW", "CS", "SS"]
+    classes = sorted(by_class, key=lambda c: (_C01_CLASS_SEEN.get(c, 0), rare.index(c[0]) if c[0] in rare else len(rare), rng.random()))
+    chosen = []
+    for c in classes[:n // 2]:
+        chosen.append(rng.choice(by_class[c]))
+        _C01_CLASS_SEEN[c] = _C01_CLASS_SEEN.get(c, 0) + 1
+    rest = [pt for pt in points if pt not in chosen]
+    chosen += rng.sample(rest, min(len(rest), n - len(chosen)))
+    return chosen
 
 
 def produce_c01(rng: random.Random, wd: Path, tier: str) -> list[dict]:
@@ -681,7 +841,12 @@ def produce_c01(rng: random.Random, wd: Path, tier: str) -> list[dict]:
             points.append((j, rid, code, k))
         j += 1
     r0.finish()
-    chosen = points if tier == "thorough" else rng.sample(points, min(len(points), 5))
+    if tier == "thorough":
+        chosen = points
+    else:
+        # stratified: the rarest (message kind, commit index) classes of this run first (a JumpToStage or CancelStage
+        # delivery is one in dozens), then uniformly random points
+        chosen = _stratified_points(points, rng)
     for (j, rid, code, k) in chosen:
         r = Runner(spec, wd)
         step = 0
@@ -690,16 +855,87 @@ def produce_c01(rng: random.Random, wd: Path, tier: str) -> list[dict]:
             r.apply(("d", p[0][0]))
             step += 1
         r.apply(("k", rid, k))
-        r.e.expire_locks()
+        # a fresh worker runs its recovery sweep at start-up, usually BEFORE the dead worker's lock lapses
+        late_expiry = rng.random() < 0.6
+        if not late_expiry:
+            r.e.expire_locks()
         r.apply(("w",))
         if rng.random() < 0.3:
             r.apply(("w",))
+        # the dead worker's lock lapses by the clock: the un-acked row comes back after `hold` further deliveries
+        hold = rng.choice([0, 0, 0, 1, 2, 3, 5, 8])
+        hold_then_expire(r, hold)
         r.drain(None, "fifo")
         t = r.finish()
-        t.tag = "crash"
-        t.meta = {"ref": ref_out, "crash_msg": code, "crash_k": k, "crashes": 1}
+        t.tag = "crash" if hold == 0 else "crash-late-redelivery"
+        t.meta = {"ref": ref_out, "crash_msg": code, "crash_k": k, "crashes": 1, "hold": hold}
         out.append(pack(t))
     return out
+
+
+def produce_c15(rng: random.Random, wd: Path, tier: str) -> list[dict]:
+    """One jump = one commit: a workflow with a jumping task runs in order; the worker dies at every commit boundary of
+    every JumpToStage delivery; after restart + recovery sweep the un-acked row comes back after 0..8 further in-order
+    deliveries (the dead worker's lock lapses by the clock).  Each such run must end like the uninterrupted one, with each
+    requested jump applied once (same executions per task, same `_jump_count`s in the final state line)."""
+    for _ in range(12):
+        spec = gen_spec(rng, "w3")
+        if any(o.startswith("J") for st in spec.stages for sc in st.tasks for o in sc):
+            break
+    ref_r = fifo_run(spec, wd)
+    ref = ref_r.finish()
+    ref_out = outcome_of(ref)
+    ref_out["counts"] = [s_["raw"].split(",jc")[1].split(",")[0] if ",jc" in "," + s_["raw"] else "-" for s_ in ref.final()["stages"]]
+    out = [pack(ref)]
+    points = []
+    r0 = Runner(spec, wd)
+    j = 0
+    while True:
+        p = r0.eligible(True)
+        if not p or j > 200:
+            break
+        rid, code, _ = p[0]
+        n = r0.e.count_commits(lambda: r0.e.deliver(rid))
+        if code.startswith("JS."):
+            for k in range(1, n):        # k = 0 is "not handled at all"
+                points.append((j, rid, code, k))
+        j += 1
+    r0.finish()
+    if tier != "thorough":
+        points = rng.sample(points, min(len(points), 3))
+    for (j, rid, code, k) in points:
+        for hold in ([0, 1, 2, 3, 4, 6, 8] if tier == "thorough" else rng.sample([0, 1, 2, 3, 4, 6, 8], 3)):
+            r = Runner(spec, wd)
+            for _ in range(j):
+                p = r.eligible(True)
+                r.apply(("d", p[0][0]))
+            r.apply(("k", rid, k))
+            r.apply(("w",))
+            hold_then_expire(r, hold)
+            r.drain(None, "fifo")
+            t = r.finish()
+            t.tag = "jump-crash"
+            t.meta = {"ref": ref_out, "crash_msg": code, "crash_k": k, "crashes": 1, "hold": hold}
+            out.append(pack(t))
+    return out
+
+
+def mon_c15(t: Trace) -> list[tuple[str, str]]:
+    """a requested jump is applied exactly once even when the worker dies while handling it (see produce_c15)"""
+    if t.tag != "jump-crash":
+        return []
+    hits = [(f"jump-crash:{sig}", what) for sig, what in mon_c01(t)]
+    ref = t.meta.get("ref") or {}
+    if ref.get("healthy") and t.quiesced and not hits:
+        counts = [s_["raw"].split(",jc")[1].split(",")[0] if ",jc" in "," + s_["raw"] else "-" for s_ in t.final()["stages"]]
+        if ref.get("counts") is not None and counts != ref["counts"]:
+            hits.append((f"jump-crash:jump-count-differs:{t.meta.get('crash_msg', '?').split('.')[0]}@{t.meta.get('crash_k')}",
+                         f"crash in {t.meta.get('crash_msg')} after {t.meta.get('crash_k')} commit(s): final _jump_count per stage {counts} vs {ref['counts']} uninterrupted"))
+    return hits
+
+
+MONITORS["C15"] = [mon_c15]
+OUTCOME_MONITORS.add("mon_c15")
 
 
 def produce_c10(rng: random.Random, wd: Path, tier: str) -> list[dict]:
@@ -717,6 +953,42 @@ def produce_c10(rng: random.Random, wd: Path, tier: str) -> list[dict]:
         before = ref.op_msg[j] if j < len(ref.op_msg) else "end"
         t.meta = {"ref": ref_out, "kind": "healthy", "sweep_before": before or "inj"}
         out.append(pack(t))
+    # after a crash: one sweep vs two sweeps in a row (before the dead worker's lock lapses) must end the same,
+    # and at most the in-flight step is repeated
+    if steps:
+        for _ in range(2 if tier != "thorough" else 6):
+            j = rng.randrange(steps)
+            k = rng.randint(0, 2)
+            finals = []
+            for nsweeps in (1, 2):
+                r = Runner(spec, wd)
+                step = 0
+                while step < j:
+                    p = r.eligible(True)
+                    if not p:
+                        break
+                    r.apply(("d", p[0][0]))
+                    step += 1
+                p = r.eligible(True)
+                if not p:
+                    r.finish()
+                    break
+                rid, code, _ = p[0]
+                r.apply(("k", rid, k))
+                for _i in range(nsweeps):
+                    r.apply(("w",))
+                r.e.expire_locks()
+                r.drain(None, "fifo")
+                t = r.finish()
+                t.tag = f"crash-sweep{nsweeps}"
+                t.meta = {"kind": f"after-crash-{nsweeps}", "crash_msg": code, "crash_k": k, "ref_healthy": ref_out}
+                finals.append(t)
+            if len(finals) == 2:
+                finals[1].meta["ref"] = dict(outcome_of(finals[0]), healthy=True)
+                finals[1].meta["kind"] = "after-crash:two-sweeps-vs-one"
+                finals[1].meta["sweep_before"] = code
+                for t in finals:
+                    out.append(pack(t))
     return out
 
 
@@ -779,7 +1051,7 @@ def produce_c18(rng: random.Random, wd: Path, tier: str) -> list[dict]:
 def pack(t: Trace) -> dict:
     return {"spec": t.spec.to_json(), "ops": t.ops, "lines": t.lines, "op_msg": t.op_msg, "audit_len": t.audit_len,
             "ledger_len": t.ledger_len, "audit": t.audit, "ledger": t.ledger, "quiesced": t.quiesced, "tag": t.tag,
-            "outcomes": t.outcomes, "commits": t.commits, "respecting": t.respecting, "meta": t.meta}
+            "outcomes": t.outcomes, "commits": t.commits, "respecting": t.respecting, "meta": t.meta, "op_inner": t.op_inner}
 
 
 def unpack(d: dict) -> Trace:
@@ -791,6 +1063,7 @@ def unpack(d: dict) -> Trace:
     t.quiesced, t.tag, t.outcomes, t.commits = d["quiesced"], d["tag"], d["outcomes"], d.get("commits", [])
     t.respecting = d.get("respecting", True)
     t.meta = d.get("meta", {})
+    t.op_inner = d.get("op_inner") or [[] for _ in t.ops]
     return t
 
 
@@ -812,6 +1085,9 @@ def replay_trace(spec: Spec, ops: list[str], wd: Path) -> Trace:
         elif o[0] == "g":
             a, b = o[1:].split(".")
             r.apply(("g", int(a), b == "1"))
+        elif o[0] == "n":
+            xs = [int(x) for x in o[1:].split(".")]
+            r.apply(("n", xs[0], xs[1:]))
     return r.finish()
 
 
@@ -878,7 +1154,7 @@ def run_for(ctx, prop: str, monitors=None, producer: str = "random") -> None:
     pre = corpus(prop)
     if pre:
         consume(ctx, prop, pre, mons)
-    total = ctx.n(160, 1600) if prop not in ("C01", "C10") else ctx.n(48, 160)
+    total = ctx.n(480, 4800) if prop not in ("C01", "C10") else ctx.n(64, 240)
     nproc = min(16, max(1, os.cpu_count() or 1))
     per = max(1, total // nproc)
     jobs = [(prop, f"{ctx.seed}:{i}", per, ctx.tier) for i in range(nproc)]
@@ -916,6 +1192,9 @@ def consume(ctx, prop: str, traces: list[Trace], mons) -> None:
         for m in mons:
             if not t.respecting and m.__name__ in OUTCOME_MONITORS:
                 continue
+            if m.__name__.startswith("mon_c02") and (t.tag.startswith("interf") or any(
+                    c.startswith("JS.") for inner in t.op_inner for c in inner)):
+                continue   # a jump re-arming a stage WHILE its task executes: iteration boundaries are ambiguous (F4 family, see C05/C06)
             for sig, what in m(t):
                 full_sig = f"{prop}:{'exotic:' if is_exotic(t.spec) else ''}{sig}"
                 if any(h["signature"] == full_sig for h in ctx.monitor_hits):
@@ -927,13 +1206,83 @@ def consume(ctx, prop: str, traces: list[Trace], mons) -> None:
                 small = shrink(t.spec, t.ops, [m], sig, wd)
                 ctx.violation(what, full_sig, {"kind_engine": True, "spec": t.spec.to_json(), "spec_line": t.spec.line(),
                                                "ops": small, "original_ops": t.ops, "monitor": m.__name__, "signature": sig,
-                                               "respecting": t.respecting})
+                                               "respecting": t.respecting, "meta": t.meta})
     if wd is not None:
         shutil.rmtree(wd, ignore_errors=True)
 
 
+def _apply_str(r: "Runner", o: str) -> None:
+    if o in ("c", "w"):
+        r.apply((o,))
+    elif o[0] in ("d", "x"):
+        r.apply((o[0], int(o[1:])))
+    elif o[0] == "k":
+        a, b = o[1:].split(".")
+        r.apply(("k", int(a), int(b)))
+    elif o[0] == "g":
+        a, b = o[1:].split(".")
+        r.apply(("g", int(a), b == "1"))
+    elif o[0] == "n":
+        xs = [int(x) for x in o[1:].split(".")]
+        r.apply(("n", xs[0], xs[1:]))
+
+
+def search_from_divergence(ctx, prop: str, mons) -> None:
+    """The trace differential broke: model and engine disagree after some op of a recorded trace.  Starting from the real
+    engine's state right after that op, continue on the REAL engine only: every row that is locked at that point (a dead
+    worker's un-acked delivery) comes back after 0..12 further in-order deliveries, the rest is drained in order; plus a few
+    random-order continuations.  Any monitor hit is a concrete failing input for the report."""
+    fails = [f for f in ctx.corr_failures if f.get("suite") == "engine-trace"][:6]
+    if not fails:
+        return
+    core.ensure_repo_on_path()
+    wd = core.scratch_dir()
+    tried = 0
+    try:
+        for f in fails:
+            inp = f["input"]
+            spec = Spec.from_json(inp["spec"])
+            a, b = f["impl"].split("|"), f["model"].split("|")
+            div = next((i for i, (x, y) in enumerate(zip(a, b)) if x != y), min(len(a), len(b)))
+            prefix = inp["ops"][:max(div, 1)]       # lines[0] is the start state; lines[k] follows ops[k-1]
+            conts: list[tuple[str, int]] = [("hold", h) for h in range(0, 13)] + [("random", i) for i in range(6)]
+            for mode, arg in conts:
+                r = Runner(spec, wd)
+                try:
+                    for o in prefix:
+                        _apply_str(r, o)
+                    if mode == "hold":
+                        hold_then_expire(r, arg)
+                        r.drain(None, "fifo")
+                    else:
+                        r.e.expire_locks()
+                        r.drain(random.Random(f"{ctx.seed}:{arg}:{tried}"), "random")
+                finally:
+                    t = r.finish()
+                tried += 1
+                t.meta = dict(inp.get("meta") or {})
+                t.tag = "search-" + mode
+                for m in mons:
+                    if not t.respecting and m.__name__ in OUTCOME_MONITORS:
+                        continue
+                    for sig, what in m(t):
+                        full_sig = f"{prop}:{'exotic:' if is_exotic(t.spec) else ''}{sig}"
+                        ctx.violation(what, full_sig, {"kind_engine": True, "spec": t.spec.to_json(), "spec_line": t.spec.line(),
+                                                       "ops": t.ops, "monitor": m.__name__, "signature": sig, "meta": t.meta,
+                                                       "found_by": "search from the point where model and engine diverge"})
+    finally:
+        shutil.rmtree(wd, ignore_errors=True)
+        ctx.notes.append(f"directed search from {len(fails)} divergence point(s): {tried} continuations on the real engine")
+
+
 def search_for(ctx, prop: str) -> None:
     """A proof obligation or the correspondence broke: hunt for a concrete failing input with a larger budget."""
+    try:
+        search_from_divergence(ctx, prop, MONITORS.get(prop, []))
+    except core.Infra:
+        raise
+    except Exception as e:  # the directed search is best effort
+        ctx.notes.append(f"directed search failed: {type(e).__name__}: {e}")
     saved = ctx.budget_scale
     ctx.budget_scale = saved * (6 if not ctx.thorough else 2)
     try:
@@ -951,6 +1300,7 @@ def replay(ctx, body: dict) -> int:
 
         logging.disable(logging.CRITICAL)
         t = replay_trace(spec, rp["ops"], wd)
+        t.meta = dict(rp.get("meta") or {})
         mons = [m for ms in MONITORS.values() for m in ms if m.__name__ == rp.get("monitor")] or [m for ms in MONITORS.values() for m in ms]
         rc = 0
         for k, o in enumerate(t.ops):
